@@ -56,8 +56,10 @@ fn view(t: &[i32], heads: i32) -> View {
     let mut c: i32 = 0;
     let mut steps = 0;
     while c < units && steps < U {
-        let s = if tb.hi(c) & M != 0 { tb.hi(c + 1) & MASK30 } else { 1 };
-        if s < 1 || s > units - c {
+        let multi = tb.hi(c) & M != 0;
+        let s = if multi { tb.hi(c + 1) & MASK30 } else { 1 };
+        // the multi flag is set exactly on runs of two or more units (get_left of the next run relies on it)
+        if s < 1 || s > units - c || (multi && s < 2) {
             v.ok = false;
             break;
         }
@@ -151,7 +153,9 @@ fn check_alloc(heads: i32) {
     if r == FAILURE {
         // fails only when no free run of that length is on this list; nothing changes
         assert!(!(pre.r[j].start && pre.r[j].free && pre.r[j].owner == fl.head && pre.r[j].size >= n), "C26.alloc.fails_only_if_no_free_run_fits");
-        assert!(before[..] == fl.table.as_ref().unwrap()[..], "C26.alloc.failure_changes_nothing");
+        let w: usize = kani::any();
+        kani::assume(w < before.len());
+        assert!(before[w] == fl.table.as_ref().unwrap()[w], "C26.alloc.failure_changes_nothing");
     } else {
         assert!(r >= 0 && (r as usize) < U, "C26.alloc.result_inside_list");
         let p = pre.r[r as usize];
@@ -189,7 +193,9 @@ fn check_alloc_from_unit(heads: i32) {
     let p = pre.r[u as usize];
     if r == FAILURE {
         assert!(!(p.free && p.size >= n), "C26.alloc_from_unit.fails_only_if_run_not_free_or_too_small");
-        assert!(before[..] == fl.table.as_ref().unwrap()[..], "C26.alloc_from_unit.failure_changes_nothing");
+        let w: usize = kani::any();
+        kani::assume(w < before.len());
+        assert!(before[w] == fl.table.as_ref().unwrap()[w], "C26.alloc_from_unit.failure_changes_nothing");
     } else {
         assert!(r == u && p.free && p.size >= n, "C26.alloc_from_unit.allocates_that_run");
         let q = post.r[u as usize];
@@ -267,7 +273,7 @@ fn check_boundary_flags(heads: i32) {
 macro_rules! c26_harness {
     ($name:ident, $f:ident, $heads:expr) => {
         #[kani::proof]
-        #[kani::unwind(9)]
+        #[kani::unwind(20)]
         fn $name() {
             $f($heads);
         }
@@ -283,13 +289,9 @@ c26_harness!(c26_boundary_flags_h1, check_boundary_flags, 1);
 
 /// Base case of the induction: the table built by the real constructor satisfies `wf`, and its runs are the
 /// documented initial runs (grain-sized, free, coalescable, on list -1; a shorter last run when grain does not divide).
-#[kani::proof]
-#[kani::unwind(9)]
-fn c26_new_establishes_wf() {
+fn check_new(heads: usize) {
     let grain: i32 = kani::any();
     kani::assume(grain >= 1 && grain <= U as i32);
-    let heads: usize = kani::any();
-    kani::assume(heads >= 1 && heads <= 2);
     let fl = IntArrayFreeList::new(U, grain, heads);
     let v = view(fl.table.as_ref().unwrap(), heads as i32);
     assert!(v.ok, "C26.new.establishes_wf");
@@ -303,10 +305,20 @@ fn c26_new_establishes_wf() {
     }
     kani::cover!(grain == 4, "C26.cover.grain_does_not_divide");
 }
+#[kani::proof]
+#[kani::unwind(20)]
+fn c26_new_establishes_wf_h1() {
+    check_new(1);
+}
+#[kani::proof]
+#[kani::unwind(20)]
+fn c26_new_establishes_wf_h2() {
+    check_new(2);
+}
 
 /// A child list created with `from_parent` operates on the parent's table through its own head.
 #[kani::proof]
-#[kani::unwind(9)]
+#[kani::unwind(20)]
 fn c26_child_list_shares_parent_table() {
     let mut parent = IntArrayFreeList::new(U, 2, 2);
     let mut child = IntArrayFreeList::from_parent(&parent, 1);
@@ -380,7 +392,7 @@ fn c26_bitfields() {
         2 => {
             // size: 1 <= size, run inside the table
             let s: i32 = kani::any();
-            kani::assume(u >= 0 && s >= 1 && u + s <= U as i32);
+            kani::assume(u >= 0 && s >= 1 && s <= U as i32 && u + s <= U as i32);
             fl.set_size(u, s);
             let t = fl.table.as_ref().unwrap();
             assert!(fl.get_size(u) == s && fl.size(u) == s, "C26.bits.size_roundtrip");
@@ -393,8 +405,9 @@ fn c26_bitfields() {
         }
         3 => {
             let f: bool = kani::any();
-            kani::assume(u >= 0 && u < U as i32 && u + fl.get_size(u) <= U as i32 + 1 && fl.get_size(u) >= 1);
+            kani::assume(u >= 0 && u < U as i32);
             let s = fl.get_size(u);
+            kani::assume(s >= 1 && s <= U as i32 && u + s <= U as i32 + 1);
             fl.set_free(u, f);
             let t = fl.table.as_ref().unwrap();
             assert!(fl.get_free(u) == f && fl.is_free(u) == f, "C26.bits.free_roundtrip");
